@@ -9,6 +9,7 @@ import re
 import typing as t
 
 from .. import astq
+from ..guards import canon, simulate
 from ..fold import Folder, RegexConst, classes_in, group_width
 from ..loader import AnalysisError, AnchorMissing, ClassInfo, FuncInfo, dotted, norm, walk_no_nested
 from ..report import Ctx
@@ -17,7 +18,8 @@ from . import _c11_helpers as H
 from ._c11_helpers import FA
 
 LEVEL_TEXT = (
-    "Static decision of structural clauses of C11 on /repo's current source: (R11.1) every validator header reaches its "
+    "Static decision of structural clauses of C11 on /repo's current source (a piece of sansio is_resource_modified moved "
+    "into a private loop-free function of its module is analysed inlined at its call): (R11.1) every validator header reaches its "
     "own parameter of sansio is_resource_modified; the ETags predicate applied to If-None-Match is weak-or-strong-or-star, "
     "the one applied to If-Match admits a strong match and '*', the one applied to the If-Range tag admits a strong match "
     "(truth tables computed from the ETags methods' branch structure), each gets the unquoted response ETag and enters "
@@ -34,12 +36,16 @@ LEVEL_TEXT = (
     "naive-or-convert UTC normalisation and a replace() that clears exactly the microseconds, the comparison is "
     "'not later than', and its verdict depends on nothing else; (R11.4) range processing, 304 and 412 are dominated by the "
     "GET/HEAD test, 304/412 by 'not modified' for the response's own ETag and Last-Modified, 412 by a non-empty If-Match "
-    "(status chosen by branches, a conditional expression or a two-entry table indexed by that test; arguments passed "
-    "directly or through a literal * / ** table; every dominating condition is read as the literals it implies, a flag "
+    "(status chosen by branches, a conditional expression, a two-entry table indexed by that test, a local set on the "
+    "branches and stored once, or a private helper whose returns are the constants; arguments passed directly, through a "
+    "local / an alias of self.headers bound once, or through a literal * / ** table (also a comprehension over a constant "
+    "module-level table); every dominating condition is read as the literals it implies, a flag "
     "local - bound before or between the ifs - standing for its defining expression, bool(X) / a walrus / True-if-X-else-False "
     "for X, negation flipping the side, so a test, a flag holding it and split or merged guards are the same thing; a "
     "condition that uses one of these verdicts other than by its truth is reported as not understood); "
-    "the 206 path by the Range / If-Range (ignore_if_range=False) gate; the arguments of is_resource_modified are checked at each "
+    "the 206 path by the Range / If-Range (ignore_if_range=False) gate - a dominating true _is_range_request_processable "
+    "test, or, the predicate inlined / split into guards, no walk of _process_range_request with Range absent or with "
+    "If-Range sent and the resource modified against it reaches the 206 effects; the arguments of is_resource_modified are checked at each "
     "*use* - the call itself or the call of a private wrapper (method of the response, function of the package) that does "
     "nothing but return its (negated) verdict, wrapper parameters replaced by what the use passes or their defaults - so the "
     "304/412 decision must ignore If-Range and the 206 gate must evaluate it even when both go through one helper; (R11.5) Content-Length, Content-Range, the "
@@ -208,6 +214,19 @@ def _verdict(A: FA) -> tuple[str, int, list[ast.Return]]:
         if r.value is None:
             raise AnalysisError(f"{A.fi.fq}: bare return")
         e, n = H.strip_not(r.value)
+        # `modified = not unmodified` ... `return modified`: a result local bound once to the (negated) verdict,
+        # the verdict not rebound between that copy and the return, is the verdict itself
+        for _ in range(4):
+            if not isinstance(e, ast.Name):
+                break
+            sv = A.single_value(e)
+            if sv is None:
+                break
+            e2, n2 = H.strip_not(sv)
+            cn = A.cfg.node_of(sv)
+            if not (isinstance(e2, ast.Name) and cn is not None and A.same_defs(e2.id, cn, A.node(r))):
+                break
+            e, n = e2, n + n2
         if isinstance(e, ast.Name):
             got.add((e.id, n % 2))
         else:
@@ -255,16 +274,17 @@ def rule_1(ctx: Ctx, A: FA, V: str, p_r: int, direct: list[ast.Return], model: E
     cs = WA.calls_to(SAN)
     if len(cs) != 1:
         raise AnalysisError(f"{wrap.fq}: expected one call of the sans-io is_resource_modified, found {len(cs)}")
-    b = H.bind(cs[0], san, bound=False)
+    b = H.bind(cs[0], san, bound=False, fold=lambda x: Folder(repo).expr(wrap.module, x))
     env_name = wrap.params[0]
+    look_w = _bound_at(WA, WA.cfg.node_of(cs[0]))  # by name at the call: the arguments may be written-out copies of a table
     n = 0
     for p in VALIDATOR_PARAMS:
         n += 1
         a = b.get(p)
         src = a
         if isinstance(src, ast.Name):  # header read into a local first
-            src = WA.single_value(src) or src
-        hk = H.header_get_key(src) if src is not None else None
+            src = look_w(src) or src
+        hk = H.header_get_key(src, look_w) if src is not None else None
         ok = hk is not None and hk[0] == env_name and hk[1] == p.upper()
         ctx.ob(R, f"http.is_resource_modified passes environ[{p.upper()!r}] as {p}", ok, f"argument bound to `{p}`: {norm(a) if a is not None else 'absent (parameter default)'}" + (f" = {norm(src)}" if src is not a and src is not None else ""), wrap, a or cs[0], f"wrapper wires {p}")
     for p in PASS_PARAMS:
@@ -349,7 +369,18 @@ def rule_1(ctx: Ctx, A: FA, V: str, p_r: int, direct: list[ast.Return], model: E
                         good = good and isinstance(v, ast.Call) and A.resolve(v.func) == "werkzeug.http.unquote_etag" and len(v.args) == 1 and isinstance(v.args[0], ast.Name)
                         if good:
                             src = A.rd.reaching(d.node, v.args[0].id)  # type: ignore[arg-type,union-attr]
-                            good = bool(src) and all(s.kind == "param" and s.name == "etag" or (s.kind == "assign" and isinstance(s.value, ast.Call) and A.resolve(s.value.func) == "werkzeug.http.generate_etag") for s in src)
+                            def raw_etag(s, depth: int = 0) -> bool:
+                                """the binding holds the response ETag as given: the parameter, generate_etag(data), or a plain copy of such a binding"""
+                                if s.kind == "param" and s.name == "etag":
+                                    return True
+                                if s.kind == "assign" and s.index is None and isinstance(s.value, ast.Call) and A.resolve(s.value.func) == "werkzeug.http.generate_etag":
+                                    return True
+                                if s.kind == "assign" and s.index is None and isinstance(s.value, ast.Name) and s.node is not None and depth < 3:
+                                    up = A.rd.reaching(s.node, s.value.id)
+                                    return bool(up) and all(raw_etag(u, depth + 1) for u in up)
+                                return False
+
+                            good = bool(src) and all(raw_etag(s) for s in src)
                         ok_arg = ok_arg and good
                     fact = f"`{mc.args[0].id}` is bound by: {sorted(norm(d.stmt) if d.stmt is not None else d.kind for d in ds)}"
                 ctx.ob(R, f"{names[role]} comparison receives the unquoted response ETag", ok_arg, fact, san, mc, f"{role} comparison argument")
@@ -1114,6 +1145,8 @@ def rule_3(ctx: Ctx, A: FA, V: str, p_r: int) -> None:
             r = A.cfg.reach(start, avoid_nodes=others, avoid_edges=none_edges)
             if Cn.id not in r:
                 continue  # this binding only arrives as None
+            if d.kind in ("assign", "walrus") and d.index is None and d.value is not None and astq.is_none(d.value):
+                continue  # `lm = None`: not a value
             ndefs += 1
             if d.kind == "param":
                 chains = [Chain(f"parameter {d.name}")]
@@ -1327,14 +1360,80 @@ def _irm_use(ctx: Ctx, X: FA, e: ast.AST | None, depth: int = 0) -> IrmUse | Non
     return IrmUse(e, n + inner.neg, args, (helper,) + inner.via)
 
 
-def _irm_args(ctx: Ctx, X: FA, call: ast.Call | IrmUse, want_ignore: bool) -> tuple[bool, str]:
-    """the is_resource_modified call compares against the response's own validators"""
+def _bound_at(X: FA, site) -> t.Callable[[ast.Name], ast.AST | None]:
+    """name use -> the expression the name was bound to, when it is a local of X bound by one plain assignment: the only
+    binding visible at ``site`` (a CFG node), or - the site unknown because the expression is a translated copy - the only
+    binding of that name in the whole function (a parameter or a name bound twice stands for nothing)."""
+
+    def look(n: ast.Name) -> ast.AST | None:
+        if site is not None:
+            ds = list(X.defs_at(site, n.id))
+        else:
+            ds = [d for nd in X.def_nodes_of(n.id) for d in X.rd.gen[nd.id] if d.name == n.id]
+            if n.id in X.fi.params:
+                return None
+        d = ds[0] if len(ds) == 1 else None
+        if d is None or d.kind not in ("assign", "walrus") or d.index is not None or d.value is None:
+            return None
+        return d.value
+
+    return look
+
+
+def _to_caller(HX: FA, e: ast.AST, env: dict[str, ast.AST]) -> ast.AST:
+    """an expression of a private helper written in its caller's terms: a parameter stands for the argument of the call,
+    a local of the helper bound by one plain assignment for the expression it was bound to (so nothing of the helper's
+    own namespace is left in expressions over parameters, attributes and calls)"""
+
+    class T(ast.NodeTransformer):
+        depth = 0
+
+        def visit_Name(self, n: ast.Name) -> ast.AST:
+            if not isinstance(n.ctx, ast.Load):
+                return n
+            if n.id in env:
+                return copy.deepcopy(env[n.id])
+            v = _bound_at(HX, None)(n)
+            if v is not None and self.depth < 6:
+                self.depth += 1
+                try:
+                    return self.visit(copy.deepcopy(v))
+                finally:
+                    self.depth -= 1
+            return n
+
+        def visit_Lambda(self, n: ast.Lambda) -> ast.AST:
+            return n
+
+    return ast.fix_missing_locations(T().visit(copy.deepcopy(e)))
+
+
+def _irm_args(ctx: Ctx, X: FA, call: ast.Call | IrmUse, want_ignore: bool, at=None) -> tuple[bool, str]:
+    """the is_resource_modified call compares against the response's own validators (``at``: the CFG node of X at
+    which the arguments are read, when the call expression is a translated copy)"""
     wrap = ctx.repo.func(WRAP)
-    b = call.args if isinstance(call, IrmUse) else H.bind(call, wrap, bound=False)
+    b = dict(call.args if isinstance(call, IrmUse) else H.bind(call, wrap, bound=False))
+    site = X.cfg.node_of(call.site if isinstance(call, IrmUse) else call) or at
+    look = _bound_at(X, site)
+
+    def behind(e: ast.AST | None) -> ast.AST | None:
+        """an argument that is a local of the using function bound once (`etag = self.headers.get("etag")` before the
+        call) stands for the expression it was bound to; the argument may be a copy (translated through a helper), so
+        the binding is looked up by name at the use"""
+        for _ in range(3):
+            v = look(e) if isinstance(e, ast.Name) else None
+            if v is None:
+                break
+            e = v
+        return e
+
+    for p in ("etag", "last_modified", "data", "ignore_if_range"):
+        if p in b:
+            b[p] = behind(b[p])  # type: ignore[assignment]
     parts = []
     ok = True
     for p, hdr in (("etag", "etag"), ("last_modified", "last-modified")):
-        hk = H.header_get_key(b[p]) if p in b else None
+        hk = H.header_get_key(b[p], look) if p in b else None
         good = hk is not None and hk[0] == "self.headers" and hk[1].lower() == hdr
         ok = ok and good
         parts.append(f"{p}={norm(b[p]) if p in b else 'absent'}")
@@ -1355,6 +1454,63 @@ def _status_code_of(v: ast.AST | None) -> int | None:
     if isinstance(v, ast.Constant) and isinstance(v.value, str) and v.value[:3].isdigit():
         return int(v.value[:3])
     return None
+
+
+def _private_callee(A: FA, call: ast.Call) -> tuple[FuncInfo, bool, ast.AST | None] | None:
+    """(helper, called bound, receiver) for `self.h(...)` (plain or static method of the same class) or `h(...)` (plain
+    function of the package); None for anything else"""
+    repo = A.repo
+    f = call.func
+    if isinstance(f, ast.Attribute) and isinstance(f.value, ast.Name) and A.fi.cls is not None and A.fi.params and f.value.id == A.fi.params[0]:
+        _o, m = repo.lookup(A.fi.cls, f.attr)
+        if isinstance(m, FuncInfo) and m.fq != A.fi.fq:
+            if not m.decorators:
+                return m, True, f.value
+            if m.decorators == ["staticmethod"]:
+                return m, False, None
+    elif isinstance(f, ast.Name):
+        h = A.callee(call)
+        if h is not None and h.cls is None and not h.decorators and h.fq != A.fi.fq:
+            return h, False, None
+    return None
+
+
+def _status_helper_arms(A: FA, call: ast.Call) -> list[tuple[int, list[tuple[ast.AST, str]]]] | None:
+    """`self.status_code = self._pick_status(environ)`: the status chosen by a private helper all of whose returns are
+    constant status codes -> one (code, condition literals) per return, the literals being the helper's own dominating
+    conditions (flags expanded) written in the caller's terms (parameters replaced by the arguments of this call).
+    None when the callee is not such a helper."""
+    pc = _private_callee(A, call)
+    if pc is None:
+        return None
+    helper, bound, recv = pc
+    try:
+        b = H.bind(call, helper, bound=bound)
+    except AnalysisError:
+        return None
+    HX = FA(A.repo, helper)
+    env: dict[str, ast.AST] = {}
+    for p_ in H.call_params(helper, bound) + [x.arg for x in helper.node.args.kwonlyargs]:  # type: ignore[attr-defined]
+        v = b.get(p_, H.param_default(helper, p_))
+        if v is None:
+            return None
+        env[p_] = v
+    if bound and recv is not None and helper.params:
+        env[helper.params[0]] = recv
+    for p_ in env:
+        if any(d.kind != "param" for n_ in HX.def_nodes_of(p_) for d in HX.rd.gen[n_.id] if d.name == p_):
+            return None  # a parameter rebound in the helper no longer stands for the argument
+    arms: list[tuple[int, list[tuple[ast.AST, str]]]] = []
+    rets = H.expand_returns(helper.node)
+    if not rets:
+        return None
+    for r, v, extra in rets:
+        code = _status_code_of(v)
+        if code is None:
+            return None
+        lits = H.guard_literals(HX, r, extra)
+        arms.append((code, [(ast.fix_missing_locations(_Subst(env).visit(copy.deepcopy(e_))), l) for e_, l in lits]))
+    return arms
 
 
 def _status_stores_c(fn: ast.AST, A: FA | None = None) -> list[tuple[ast.Assign, int, list[tuple[ast.AST, str]]]]:
@@ -1387,16 +1543,32 @@ def _status_stores_c(fn: ast.AST, A: FA | None = None) -> list[tuple[ast.Assign,
             val = s.value
             if isinstance(val, ast.Name) and A is not None:  # code = 412 if if_match else 304; self.status_code = code
                 try:
-                    val = A.single_value(val) or val
+                    sv = A.single_value(val)
+                    ds = A.defs(val)
                 except AnalysisError:
-                    pass
+                    sv, ds = None, frozenset()
+                if sv is not None:
+                    val = sv
+                elif len(ds) > 1 and all(d.kind == "assign" and d.index is None and d.value is not None and d.node is not None for d in ds):
+                    # `status = 412` / `status = 304` chosen by branches, stored once afterwards: each binding that
+                    # reaches the store is a store of its value under the conditions of the binding as well
+                    for d in sorted(ds, key=lambda d: d.node.id):
+                        for v, conds in H.split_ifexp(d.value, (), lookup):
+                            code = _status_code_of(v)
+                            if code is not None:
+                                atoms = [x for c, l in conds for x in H.cond_atoms(c, l)]
+                                out.append((s, code, atoms + H.guard_literals(A, d.node)))
+                    continue
             for v, conds in H.split_ifexp(val, (), lookup):
                 code = _status_code_of(v)
+                atoms: list[tuple[ast.AST, str]] = []
+                for c, l in conds:
+                    atoms += H.cond_atoms(c, l)
                 if code is not None:
-                    atoms: list[tuple[ast.AST, str]] = []
-                    for c, l in conds:
-                        atoms += H.cond_atoms(c, l)
                     out.append((s, code, atoms))
+                elif isinstance(v, ast.Call) and A is not None:  # the status is picked by a private helper
+                    for code, lits in _status_helper_arms(A, v) or []:
+                        out.append((s, code, atoms + lits))
     out.sort(key=lambda p: p[0].lineno)
     return out
 
@@ -1487,7 +1659,7 @@ def rule_4(ctx: Ctx) -> None:
         if not (isinstance(e_, ast.Call) and M.resolve(e_.func) == "werkzeug.http.parse_etags" and len(e_.args) == 1 and not e_.keywords):
             return None
         a0 = e_.args[0]
-        if isinstance(a0, ast.Name):  # raw = environ.get("HTTP_IF_MATCH"); parse_etags(raw)
+        if isinstance(a0, ast.Name) and M.cfg.node_of(a0) is not None:  # raw = environ.get("HTTP_IF_MATCH"); parse_etags(raw)
             a0 = M.single_value(a0) or a0
         return H.header_get_key(a0)
 
@@ -1497,24 +1669,66 @@ def rule_4(ctx: Ctx) -> None:
     def about_if_match(x: ast.AST) -> bool:
         return (isinstance(x, ast.Constant) and x.value == "HTTP_IF_MATCH") or (isinstance(x, ast.Call) and M.resolve(x.func) == "werkzeug.http.parse_etags")
 
-    irm_uses = [u for c in sorted(astq.calls(mc.node, nested=False), key=lambda c: (c.lineno, c.col_offset)) for u in [irm_use(c)] if u is not None]
+    # the 304/412 decision moved into a private method of the response (`self._apply_preconditions(environ)`): its
+    # stores are stores of make_conditional under the conditions of the call *and* the helper's own conditions, the
+    # latter written in make_conditional's terms (parameters -> arguments, helper locals -> what they were bound to)
+    helper_ctx: list[tuple[FA, dict[str, ast.AST], ast.Call, list]] = []
+    for c in sorted(astq.calls(mc.node, nested=False), key=lambda c: (c.lineno, c.col_offset)):
+        pc = _private_callee(M, c)
+        if pc is None or not pc[1]:
+            continue
+        helper, _bound, recv = pc
+        HX = FA(repo, helper)
+        hs = [(s, code, extra) for s, code, extra in _status_stores_c(helper.node, HX) if code in (304, 412)]
+        if not hs:
+            continue
+        hb = H.bind(c, helper, bound=True)
+        env: dict[str, ast.AST] = {}
+        for p_ in H.call_params(helper, True) + [x.arg for x in helper.node.args.kwonlyargs]:  # type: ignore[attr-defined]
+            v = hb.get(p_, H.param_default(helper, p_))
+            if v is None:
+                raise AnalysisError(f"{mc.fq}: `{norm(c)}` does not pass `{p_}` to {helper.fq}")
+            env[p_] = v
+        env[helper.params[0]] = recv  # type: ignore[assignment]
+        for p_ in env:
+            if any(d.kind != "param" for n_ in HX.def_nodes_of(p_) for d in HX.rd.gen[n_.id] if d.name == p_):
+                raise AnalysisError(f"{helper.fq}: rebinds its parameter `{p_}`; the status decision in it is not followed")
+        ctx.saw(helper)
+        helper_ctx.append((HX, env, c, hs))
+
+    irm_uses = [(u, mc, None) for c in sorted(astq.calls(mc.node, nested=False), key=lambda c: (c.lineno, c.col_offset)) for u in [irm_use(c)] if u is not None]
+    for HX, env, c, _hs in helper_ctx:
+        for hc in sorted(astq.calls(HX.fi.node, nested=False), key=lambda c: (c.lineno, c.col_offset)):
+            if _irm_use(ctx, HX, hc) is not None:
+                u = irm_use(_to_caller(HX, hc, env))
+                if u is None:
+                    raise AnalysisError(f"{HX.fi.fq}: `{norm(hc)[:70]}` is not understood in terms of {mc.name}")
+                irm_uses.append((u, HX.fi, M.node(c)))
     if not irm_uses:
         raise AnalysisError(f"{mc.fq}: no test on is_resource_modified(...)")
-    for u in irm_uses:
-        ok, fact = _irm_args(ctx, M, u, True)
+    for u, where, at in irm_uses:
+        ok, fact = _irm_args(ctx, M, u, True, at)
         b = u.args
         ok = ok and "environ" in b and norm(b["environ"]) == env_name
-        ctx.ob(R, "304/412 are decided against the response's own ETag and Last-Modified, If-Range not considered", ok, fact, mc, u.site, "make_conditional is_resource_modified arguments")
+        ctx.ob(R, "304/412 are decided against the response's own ETag and Last-Modified, If-Range not considered", ok, fact, where, u.site, "make_conditional is_resource_modified arguments")
 
-    stores = [(s, code, extra) for s, code, extra in _status_stores_c(mc.node, M) if code in (304, 412)]
-    if not any(code == 304 for _, code, _ in stores):
+    # (statement, code, literals, gated by the method test, where)
+    stores: list[tuple[ast.stmt, int, list[tuple[ast.AST, str]], bool, FuncInfo]] = []
+    for s, code, extra in _status_stores_c(mc.node, M):
+        if code in (304, 412):
+            sn = M.node(s)
+            stores.append((s, code, H.guard_literals(M, sn, extra), (G, GL) in M.guards(sn), mc))
+    for HX, env, c, hs in helper_ctx:
+        cn = M.node(c)
+        outer = H.guard_literals(M, cn)
+        for s, code, extra in hs:
+            inner = [(_to_caller(HX, e_, env), l) for e_, l in H.guard_literals(HX, HX.node(s), extra)]
+            stores.append((s, code, outer + inner, (G, GL) in M.guards(cn), HX.fi))
+    if not any(code == 304 for _, code, _, _, _ in stores):
         raise AnalysisError(f"{mc.fq}: no assignment of status 304")
     ctx.floor(R, "304/412 assignments in make_conditional", len(stores), 2)
-    for s, code, extra in stores:
-        sn = M.node(s)
-        gs = M.guards(sn)
-        lits = H.guard_literals(M, sn, extra)
-        ctx.ob(R, f"status {code} only for GET/HEAD", (G, GL) in gs, f"`{norm(s)}` {'is' if (G, GL) in gs else 'is NOT'} dominated by `{norm(G.ast)}`", mc, s, f"status {code} gated")
+    for s, code, lits, gated, where_s in stores:
+        ctx.ob(R, f"status {code} only for GET/HEAD", gated, f"`{norm(s)}`{'' if where_s is mc else ' (in ' + where_s.name + ')'} {'is' if gated else 'is NOT'} dominated by `{norm(G.ast)}`", where_s, s, f"status {code} gated")
         shown = [norm(e_)[:40] + ('' if l == 'T' else ' is false') for e_, l in lits]
         nm = [e_ for e_, l in lits if says_unmodified(e_, l)]
         if not nm:
@@ -1523,17 +1737,17 @@ def rule_4(ctx: Ctx) -> None:
             odd = H.misread(M, lits, is_irm)
             if odd is not None:
                 raise AnalysisError(f"{mc.fq}: status {code} is under `{norm(odd)[:70]}`, which involves is_resource_modified(...) in a way that is not understood")
-        ctx.ob(R, f"status {code} only when is_resource_modified says not modified", bool(nm), f"`{norm(s)}` guards: {shown}", mc, s, f"status {code} needs not-modified")
+        ctx.ob(R, f"status {code} only when is_resource_modified says not modified", bool(nm), f"`{norm(s)}` guards: {shown}", where_s, s, f"status {code} needs not-modified")
         want = "T" if code == 412 else "F"
         hit = [e_ for e_, l in lits if l == want and im_expr(e_)]
         if not hit:
             odd = H.misread(M, lits, lambda x: im_header(x) is not None, about_if_match)  # a parse of another header is understood (and wrong)
             if odd is not None:
                 raise AnalysisError(f"{mc.fq}: status {code} is under `{norm(odd)[:70]}`, which involves If-Match in a way that is not understood")
-        ctx.ob(R, "status 412 only under a non-empty If-Match" if code == 412 else "status 304 only without If-Match (a failed If-Match is 412)", bool(hit), f"status {code} in `{norm(s)}` {'is' if hit else 'is NOT'} on the {'true' if want == 'T' else 'false'} side of a parse_etags({env_name}.get('HTTP_IF_MATCH')) test", mc, s, f"status {code} If-Match side")
+        ctx.ob(R, "status 412 only under a non-empty If-Match" if code == 412 else "status 304 only without If-Match (a failed If-Match is 412)", bool(hit), f"status {code} in `{norm(s)}` {'is' if hit else 'is NOT'} on the {'true' if want == 'T' else 'false'} side of a parse_etags({env_name}.get('HTTP_IF_MATCH')) test", where_s, s, f"status {code} If-Match side")
         if code == 304:
             more = [f"{norm(e_)} is {'true' if l == 'T' else 'false'}" for e_, l in lits if not (gate_lit(e_, l) is not None or is_irm(e_) or im_expr(e_) or is_prc(e_))]
-            ctx.ob(R, "304 follows whenever the validators match for GET/HEAD (no further condition)", not more, f"additionally requires: {more}" if more else "guards: method test, not-modified, no If-Match (and not already 206)", mc, s, "status 304 guards")
+            ctx.ob(R, "304 follows whenever the validators match for GET/HEAD (no further condition)", not more, f"additionally requires: {more}" if more else "guards: method test, not-modified, no If-Match (and not already 206)", where_s, s, "status 304 guards")
 
     # ---- the 206 path inside _process_range_request
     pr = _method(ctx, resp, "_process_range_request")
@@ -1543,6 +1757,76 @@ def rule_4(ctx: Ctx) -> None:
         return isinstance(e_, ast.Call) and isinstance(e_.func, ast.Attribute) and astq.is_name(e_.func.value, "self") and e_.func.attr == "_is_range_request_processable"
 
     nproc = len([c for c in P.method_calls("_is_range_request_processable") if is_proc(c)])
+
+    # what "processable" means, decided on values when no dominating `self._is_range_request_processable(...)` test is
+    # found (the predicate inlined, split into guard clauses, merged with other conditions): the function is walked
+    # under every valuation of R (Range sent), I (If-Range sent), U (is_resource_modified with ignore_if_range=False
+    # says modified) that is NOT processable - R false, or I and U both true - every other condition free; a 206 effect
+    # that such a walk passes is not gated.
+    env_p = "environ" if "environ" in pr.params else None
+    sem_uses: list[IrmUse] = []
+
+    def gate_truth(e_: ast.AST, v: dict[str, bool], depth: int = 0) -> bool | None:
+        """truth of a condition under the valuation; None: not determined by R, I, U"""
+        if depth > 8:
+            return None
+        e1, k = H.strip_not(e_)
+        if k:
+            r_ = gate_truth(e1, v, depth + 1)
+            return None if r_ is None else (r_ if k % 2 == 0 else not r_)
+        if isinstance(e_, ast.BoolOp):
+            rs = [gate_truth(x, v, depth + 1) for x in e_.values]
+            if isinstance(e_.op, ast.And):
+                return False if any(r_ is False for r_ in rs) else True if all(r_ is True for r_ in rs) else None
+            return True if any(r_ is True for r_ in rs) else False if all(r_ is False for r_ in rs) else None
+        tc = H.truth_core(e_)
+        if tc is not None:
+            r_ = gate_truth(tc[0], v, depth + 1)
+            return None if r_ is None else (r_ == tc[1])
+        if isinstance(e_, ast.Name):
+            sv = P.single_value(e_) if isinstance(e_.ctx, ast.Load) and P.cfg.node_of(e_) is not None else None
+            return gate_truth(sv, v, depth + 1) if sv is not None else None
+        p_ = astq.cmp_parts(e_)
+        if p_ and isinstance(p_[1], (ast.In, ast.NotIn)) and env_p is not None and astq.is_name(p_[2], env_p):
+            key = astq.const_str(p_[0])
+            if key in ("HTTP_RANGE", "HTTP_IF_RANGE"):
+                return v["R" if key == "HTTP_RANGE" else "I"] == isinstance(p_[1], ast.In)
+            return None
+        if is_proc(e_):
+            # true only for a processable request: what the obligations on the predicate itself (below) establish
+            return None if v["R"] and not (v["I"] and v["U"]) else False
+        u_ = _irm_use(ctx, P, e_)
+        if u_ is not None:
+            ok_, _f = _irm_args(ctx, P, u_, False)
+            if ok_ and "environ" in u_.args and env_p is not None and astq.is_name(u_.args["environ"], env_p):
+                if not any(u_.site is x.site for x in sem_uses):
+                    sem_uses.append(u_)
+                return v["U"] == (u_.neg % 2 == 0)
+        return None
+
+    key_ast: dict[str, tuple[ast.AST, bool]] = {}
+    for t_ in P.cfg.tests():
+        if t_.kind == "test" and t_.ast is not None:
+            k_, pos_ = canon(t_.ast)
+            key_ast.setdefault(k_, (t_.ast, pos_))
+
+    def gated_by_meaning(a: ast.AST) -> tuple[bool, str]:
+        mn = P.node(a)
+        for R_, I_, U_ in itertools.product((False, True), repeat=3):
+            if R_ and not (I_ and U_):
+                continue
+            v = {"R": R_, "I": I_, "U": U_}
+
+            def val(k: str, v=v) -> bool | None:
+                if k not in key_ast:
+                    return None
+                r_ = gate_truth(key_ast[k][0], v)
+                return None if r_ is None else (r_ == key_ast[k][1])
+
+            for o in simulate(P.cfg, val):
+                if any(x is mn for x in o.passed):
+                    return False, f"reached with Range {'sent' if R_ else 'absent'}, If-Range {'sent' if I_ else 'absent'}, resource {'modified' if U_ else 'unmodified'} against If-Range"
+        return True, "not reached on any walk with Range absent, or with If-Range sent and the resource modified against it"
     marks: list[tuple[str, ast.AST]] = [("status 206", s) for s, code in _status_stores(pr.node) if code == 206]
     marks += [("range wrap", WrapSite(ctx, P).call)]
     marks += [("Range parse", c) for c in P.calls_to("werkzeug.http.parse_range_header")]
@@ -1551,14 +1835,28 @@ def rule_4(ctx: Ctx) -> None:
     for what, a in marks:
         lits = H.guard_literals(P, a)
         ok = P.cfg.reachable(P.node(a)) and any(is_proc(e_) and l == "T" for e_, l in lits)
+        how = f"dominated by a true `self._is_range_request_processable(...)` test ({nproc} such call(s) in the function)"
+        if not ok and P.cfg.reachable(P.node(a)):
+            ok, why = gated_by_meaning(a)
+            if ok:
+                how = f"gated by the conditions of {pr.name} themselves: {why}"
+            else:
+                how += f"; {why}"
         if not ok:
             odd = H.misread(P, lits, is_proc)
             if odd is not None:
                 raise AnalysisError(f"{pr.fq}: {what} is under `{norm(odd)[:70]}`, which involves _is_range_request_processable(...) in a way that is not understood")
-        ctx.ob(R, f"{what} only when the range request is processable (Range present, If-Range satisfied)", ok, f"`{norm(a)[:70]}` {'is' if ok else 'is NOT'} dominated by a true `self._is_range_request_processable(...)` test ({nproc} such call(s) in the function)", pr, a, f"{what} processable")
+        ctx.ob(R, f"{what} only when the range request is processable (Range present, If-Range satisfied)", ok, f"`{norm(a)[:70]}` {'is' if ok else 'is NOT'} {how}", pr, a, f"{what} processable")
     ctx.floor(R, "206-path effects", len(marks), 3)
 
-    q = _method(ctx, resp, "_is_range_request_processable")
+    _qo, q = repo.lookup(resp, "_is_range_request_processable")
+    if not isinstance(q, FuncInfo):
+        # the predicate was inlined: its obligations are the ones just decided on the conditions of the function itself
+        if nproc:
+            raise AnchorMissing(f"{resp.name}._is_range_request_processable not found")
+        if not sem_uses:
+            raise AnalysisError(f"{pr.fq}: no _is_range_request_processable and no is_resource_modified(..., ignore_if_range=False) test of the response's own validators decides the 206 path")
+        return
     Q = FA(repo, q)
     env_q = [p for p in q.params if p != "self"][0]
     paths = [bp for bp in H.bool_paths(q.node, q.fq)]
@@ -1626,6 +1924,9 @@ class RangeSlots:
         def one(calls: list[ast.Call], what: str) -> tuple[ast.Call, ast.Assign, str]:
             if len(calls) != 1:
                 raise AnalysisError(f"{pr.fq}: expected exactly one {what} call, found {len(calls)}")
+            par = astq.parent(calls[0])
+            if isinstance(par, ast.NamedExpr) and par.value is calls[0] and isinstance(par.target, ast.Name):
+                return calls[0], par, par.target.id  # type: ignore[return-value]  # bound by a walrus: the binding "statement" is the walrus
             st = astq.stmt_of(pr, calls[0])
             if not (isinstance(st, ast.Assign) and st.value is calls[0] and len(st.targets) == 1 and isinstance(st.targets[0], ast.Name)):
                 raise AnalysisError(f"{pr.fq}: result of {what} is not bound to a local name")
@@ -1639,8 +1940,11 @@ class RangeSlots:
         """e is a use of `var` that sees exactly the binding made by st"""
         if not astq.is_name(e, var):
             return False
-        ds = self.P.defs(e)  # type: ignore[arg-type]
-        return len(ds) == 1 and next(iter(ds)).stmt is st
+        if isinstance(st, ast.NamedExpr) and e is st.target:
+            return True  # the walrus target itself: `(v := f()) is None` tests this binding
+        # a None default that also reaches the use (`v = None` ... `if ok: v = f()`) is not another value of v
+        ds = [d for d in self.P.defs(e) if not (d.kind == "assign" and d.index is None and d.value is not None and astq.is_none(d.value))]  # type: ignore[arg-type]
+        return len(ds) == 1 and ds[0].stmt is st
 
 
 class WrapSite:
@@ -1697,12 +2001,22 @@ def _is_206_test(e_: ast.AST | None, l: str) -> bool:
     return norm(a) == "self.status_code" and isinstance(b, ast.Constant) and b.value == 206 and ((isinstance(op, ast.Eq) and l == "T") or (isinstance(op, ast.NotEq) and l == "F"))
 
 
-def _header_store(fn: ast.AST, name: str) -> list[ast.Assign]:
-    """`self.headers["Name"] = v` and the header-property form `self.name = v` (header_property descriptors of Response)"""
+def _header_store(fn: ast.AST, name: str, X: FA | None = None) -> list[ast.Assign]:
+    """`self.headers["Name"] = v` (also through a local bound once to self.headers: `headers = self.headers`) and the
+    header-property form `self.name = v` (header_property descriptors of Response)"""
     out = []
     attr = name.replace("-", "_")
+
+    def is_headers(e: ast.AST) -> bool:
+        if astq.is_self_attr(e, "headers"):
+            return True
+        if isinstance(e, ast.Name) and X is not None and X.cfg.node_of(e) is not None:
+            v = X.single_value(e)
+            return v is not None and astq.is_self_attr(v, "headers")
+        return False
+
     for s in walk_no_nested(fn):
-        if isinstance(s, ast.Assign) and len(s.targets) == 1 and isinstance(s.targets[0], ast.Subscript) and astq.is_self_attr(s.targets[0].value, "headers"):
+        if isinstance(s, ast.Assign) and len(s.targets) == 1 and isinstance(s.targets[0], ast.Subscript) and is_headers(s.targets[0].value):
             k = astq.const_str(s.targets[0].slice)
             if k is not None and k.lower() == name:
                 out.append(s)
@@ -1717,7 +2031,11 @@ def rule_5(ctx: Ctx, P: FA, S: RangeSlots) -> None:
     pr = P.fi
     resp = repo.cls(RESP)
     env_p = [p for p in pr.params if p != "self"][0]
-    hk = H.header_get_key(S.parse.args[0]) if S.parse.args else None
+    a0 = S.parse.args[0] if S.parse.args else None
+    look = _bound_at(P, P.cfg.node_of(S.parse))
+    if isinstance(a0, ast.Name):  # range_header = environ.get("HTTP_RANGE"); parse_range_header(range_header)
+        a0 = look(a0) or a0
+    hk = H.header_get_key(a0, look) if a0 is not None else None
     ctx.ob(R, "the parsed range is the request's Range header", hk == (env_p, "HTTP_RANGE"), f"`{norm(S.parse)}`", pr, S.parse, "parse source")
 
     def recv_ok(c: ast.Call) -> bool:
@@ -1729,8 +2047,9 @@ def rule_5(ctx: Ctx, P: FA, S: RangeSlots) -> None:
     both = recv_ok(S.rfl) and recv_ok(S.tcr) and len_ok(S.rfl) and len_ok(S.tcr)
     ctx.ob(R, "byte window and Content-Range come from the same parsed Range and the same complete length", both, f"`{norm(S.rfl)}` / `{norm(S.tcr)}`", pr, S.rfl, "one range one length")
 
-    def is_rt(e: ast.AST, idx: int) -> bool:
-        """e is element idx of the range_for_length tuple: `rt[idx]` or a local unpacked from position idx of it"""
+    def is_rt(e: ast.AST, idx: int, depth: int = 0) -> bool:
+        """e is element idx of the range_for_length tuple: `rt[idx]`, a local unpacked from position idx of it, or a
+        local bound once to such an element (`start = rt[0]`)"""
         sc = H.subscript_const(e)
         if sc is not None:
             return sc[1] == idx and S.is_var(sc[0], S.RT, S.rfl_st)
@@ -1738,6 +2057,8 @@ def rule_5(ctx: Ctx, P: FA, S: RangeSlots) -> None:
             ds = P.defs(e)
             if len(ds) == 1:
                 d = next(iter(ds))
+                if d.kind == "assign" and d.index is None and d.value is not None and depth < 3:
+                    return is_rt(d.value, idx, depth + 1)
                 return d.kind == "unpack" and d.index == idx and isinstance(d.stmt, ast.Assign) and isinstance(d.target, ast.Name) and len(d.stmt.targets) == 1 and isinstance(d.stmt.targets[0], (ast.Tuple, ast.List)) and len(d.stmt.targets[0].elts) == 2 and d.value is not None and S.is_var(d.value, S.RT, S.rfl_st)
         return False
 
@@ -1754,7 +2075,7 @@ def rule_5(ctx: Ctx, P: FA, S: RangeSlots) -> None:
                 return next(iter(ds))
         return None
 
-    cls_ = _header_store(pr.node, "content-length")
+    cls_ = _header_store(pr.node, "content-length", P)
     if len(cls_) != 1:
         raise AnalysisError(f"{pr.fq}: expected one Content-Length store, found {len(cls_)}")
     v = cls_[0].value
@@ -1775,7 +2096,7 @@ def rule_5(ctx: Ctx, P: FA, S: RangeSlots) -> None:
     ctx.ob(R, "the body window starts at the tuple's start", s_ok, f"{site.pnames[0]}={norm(site.start) if site.start is not None else 'absent'}", pr, wcall, "wrap start")
     ctx.ob(R, "the body window length is the Content-Length value", l_ok, f"{site.pnames[1]}={norm(site.length) if site.length is not None else 'absent'}", pr, wcall, "wrap length")
 
-    crs = _header_store(pr.node, "content-range")
+    crs = _header_store(pr.node, "content-range", P)
     if len(crs) != 1:
         raise AnalysisError(f"{pr.fq}: expected one Content-Range store, found {len(crs)}")
     ctx.ob(R, "Content-Range is the to_content_range_header result", S.is_var(crs[0].value, S.CR, S.tcr_st), f"`{norm(crs[0])}`", pr, crs[0], "content-range source")
@@ -1890,8 +2211,41 @@ def _none_tests(X: FA, var: str, is_use) -> list[tuple]:
             for e_, l2 in H.expand_literal(X, t_.ast, H.flip(l), keep=is_use):
                 if H.none_proving(e_, H.flip(l2)) == var:
                     nm = e_ if isinstance(e_, ast.Name) else e_.left  # type: ignore[attr-defined]
+                    if isinstance(nm, ast.NamedExpr):
+                        nm = nm.target
                     if is_use(nm):
                         out.append((t_, l, e_))
+    return out
+
+
+def _reach_knowing_none(X: FA, starts: t.Iterable, none_names: set[str]) -> set[int]:
+    """ids of the nodes reachable from ``starts`` on walks consistent with what is known to be None: the names in
+    ``none_names`` at the start; along a walk a name bound to the constant None becomes known, a name bound to anything
+    else is forgotten, and a test edge that a None in a known name cannot take (`v is not None` true, `v` true) is not
+    followed.  With nothing known this is plain reachability."""
+    seen: set[tuple[int, frozenset[str]]] = set()
+    out: set[int] = set()
+    stack = [(n, frozenset(none_names)) for n in starts]
+    while stack:
+        n, st = stack.pop()
+        if (n.id, st) in seen:
+            continue
+        seen.add((n.id, st))
+        out.add(n.id)
+        only: str | None = None
+        if n.kind == "test" and n.ast is not None:
+            for l in ("T", "F"):
+                nm = H.none_proving(n.ast, l)
+                if nm is not None and nm in st:
+                    only = l  # the edge a None takes; the other edge says the name is not None (or truthy)
+        st2 = st
+        for d in X.rd.gen.get(n.id, ()):
+            is_none = d.kind in ("assign", "walrus") and d.index is None and d.value is not None and astq.is_none(d.value)
+            st2 = (st2 | {d.name}) if is_none else (st2 - {d.name})
+        for s_, l_ in n.succs:
+            if only is not None and l_ in ("T", "F") and l_ != only:
+                continue
+            stack.append((s_, st2))
     return out
 
 
@@ -1917,7 +2271,10 @@ def rule_6(ctx: Ctx, P: FA, S: RangeSlots) -> None:
         bad_exit = []
         wrong_raise = []
         for t_, l in nts:
-            r = P.cfg.reach(P.cfg.succ(t_, l))
+            # what the None side reaches, knowing that `var` is None there and which other names still hold a None
+            # default (`rt = cr = None` ... `if pr is not None: rt = ...` ... `if rt is None or cr is None: raise`)
+            known = {var} | {d.name for nm_ in {x.id for x in ast.walk(pr.node) if isinstance(x, ast.Name)} for ds_ in [P.defs_at(t_, nm_)] if ds_ and all(d.kind == "assign" and d.index is None and d.value is not None and astq.is_none(d.value) for d in ds_) for d in ds_}
+            r = _reach_knowing_none(P, P.cfg.succ(t_, l), known)
             if P.cfg.exit.id in r:
                 bad_exit.append(norm(t_.ast))
             for nd in P.cfg.nodes:
@@ -2224,7 +2581,13 @@ def rule_8(ctx: Ctx) -> None:
                     return True
         return False
 
-    ends = {s.targets[0].attr for s in walk_no_nested(init.node) if isinstance(s, ast.Assign) and len(s.targets) == 1 and astq.is_self_attr(s.targets[0]) and is_abs_end(s.value)}  # type: ignore[attr-defined]
+    def holds_abs_end(v: ast.AST) -> bool:
+        """start_byte + byte_range, directly or through a local some binding of which is that sum"""
+        if isinstance(v, ast.Name) and IA.cfg.node_of(v) is not None:
+            return any(d.value is not None and d.index is None and is_abs_end(d.value) for d in IA.defs(v))
+        return is_abs_end(v)
+
+    ends = {s.targets[0].attr for s in walk_no_nested(init.node) if isinstance(s, ast.Assign) and len(s.targets) == 1 and astq.is_self_attr(s.targets[0]) and holds_abs_end(s.value)}  # type: ignore[attr-defined]
     if len(ends) != 1:
         raise AnalysisError(f"{init.fq}: expected one attribute bound from start_byte + byte_range, found {sorted(ends)}")
     end = next(iter(ends))
@@ -2233,22 +2596,36 @@ def rule_8(ctx: Ctx) -> None:
         if m is not init and H.self_attr_stores(m.node, end):
             raise AnalysisError(f"{m.fq}: rebinds self.{end}; the absolute-end model of R11.8 does not apply")
 
+    def attr_behind(X: FA, e: ast.AST) -> str | None:
+        """the attribute of self an expression reads: `self.a`, or a local bound once to `self.a` (`end = self.end_byte`)"""
+        for _ in range(3):
+            if astq.is_self_attr(e):
+                return e.attr  # type: ignore[attr-defined]
+            if not (isinstance(e, ast.Name) and isinstance(e.ctx, ast.Load) and X.cfg.node_of(e) is not None):
+                return None
+            sv = X.single_value(e)
+            if sv is None:
+                return None
+            e = sv
+        return None
+
     counters: set[str] = set()
     cmp_at = None
     for m in methods:
+        X = FA(repo, m)
         for x in walk_no_nested(m.node):
             if isinstance(x, ast.Compare) and len(x.ops) == 1 and isinstance(x.ops[0], (ast.Lt, ast.LtE, ast.Gt, ast.GtE)):
                 a, b = x.left, x.comparators[0]
                 for u, v in ((a, b), (b, a)):
-                    if astq.is_self_attr(u, end) and astq.is_self_attr(v):
-                        counters.add(v.attr)  # type: ignore[attr-defined]
+                    va = attr_behind(X, v)
+                    if attr_behind(X, u) == end and va is not None and va != end:
+                        counters.add(va)
                         cmp_at = (m, x)
     if len(counters) != 1 or cmp_at is None:
         raise AnalysisError(f"{rwc.fq}: expected one attribute compared with self.{end} by an ordering test, found {sorted(counters)}")
     counter = next(iter(counters))
 
-    def body_attr(e: ast.AST) -> str | None:
-        return e.attr if astq.is_self_attr(e) else None  # type: ignore[attr-defined]
+    body_attr = attr_behind
 
     def rebases(X: FA, st: ast.stmt, recv: str, arg: ast.AST | None) -> bool:
         """st stores the absolute position into the counter"""
@@ -2256,7 +2633,7 @@ def rule_8(ctx: Ctx) -> None:
             return False
 
         def good(v: ast.AST, depth: int = 0) -> bool:
-            if isinstance(v, ast.Call) and isinstance(v.func, ast.Attribute) and v.func.attr in ("tell", "seek") and body_attr(v.func.value) == recv:
+            if isinstance(v, ast.Call) and isinstance(v.func, ast.Attribute) and v.func.attr in ("tell", "seek") and body_attr(X, v.func.value) == recv:
                 return True
             if arg is not None and norm(v) == norm(arg):
                 return True
@@ -2280,10 +2657,12 @@ def rule_8(ctx: Ctx) -> None:
     for m in methods:
         X = FA(repo, m)
         for c in X.method_calls("seek"):
-            recv = body_attr(c.func.value)  # type: ignore[attr-defined]
+            recv = body_attr(X, c.func.value)  # type: ignore[attr-defined]
             if recv is None or len(c.args) < 1:
                 continue
-            if len(c.args) > 1 or c.keywords:
+            whence = c.args[1] if len(c.args) == 2 and not c.keywords else c.keywords[0].value if len(c.args) == 1 and len(c.keywords) == 1 and c.keywords[0].arg == "whence" else None
+            from_start = whence is not None and ((isinstance(whence, ast.Constant) and whence.value == 0 and type(whence.value) is int) or (dotted(whence) or "").rsplit(".", 1)[-1] == "SEEK_SET")
+            if (len(c.args) > 1 or c.keywords) and not from_start:
                 raise AnalysisError(f"{m.fq}: `{norm(c)}` is not an absolute seek; R11.8 does not model it")
             nseek += 1
             sn = X.node(c)
@@ -2415,7 +2794,8 @@ def run(ctx: Ctx) -> None:
     for p in VALIDATOR_PARAMS + PASS_PARAMS:
         if p not in san.params:
             raise AnchorMissing(f"{SAN} has no parameter {p}")
-    A = FA(repo, san)
+    # a piece of the function moved into a private helper of the module is analysed where it was (one level, inlined)
+    A = FA(repo, H.inline_private_helpers(repo, san, ctx.saw))
     V, p_r, direct = _verdict(A)
     model = ETagsModel(ctx)
     T = H.VerdictTable(A)
